@@ -21,7 +21,14 @@ from pyarrow import ipc
 
 from vgi_rpc.external import predict_externalize_bytes_for_collector, resolve_external_location
 from vgi_rpc.log import Message
-from vgi_rpc.metadata import CALL_STATE_KEY, CANCEL_KEY, PROTOCOL_VERSION_KEY, STATE_KEY, strip_keys
+from vgi_rpc.metadata import (
+    CALL_STATE_KEY,
+    CANCEL_KEY,
+    LOG_LEVEL_KEY,
+    PROTOCOL_VERSION_KEY,
+    STATE_KEY,
+    strip_keys,
+)
 from vgi_rpc.rpc import (
     _EMPTY_SCHEMA,
     _TICK_BATCH,
@@ -43,6 +50,7 @@ from vgi_rpc.rpc import (
     _truncate_error_message,
     _validate_call_signature,
     _validate_params,
+    _write_collector_logs,
     _write_error_batch,
     _write_stream_header,
 )
@@ -309,7 +317,8 @@ def _run_stream_init_sync(
                 outcome.error_type = _log_method_error(protocol_name, method_name, server_id, exc)
                 outcome.error_message = _truncate_error_message(exc)
                 outcome.http_status = HTTPStatus.INTERNAL_SERVER_ERROR
-                raise _RpcHttpError(exc, status_code=outcome.http_status) from exc
+                # logs the method emitted before failing travel ahead of the error
+                raise _RpcHttpError(exc, status_code=outcome.http_status, logs=sink.pending()) from exc
 
             # Mint the stream's call token once, here.  Everything it carries —
             # the call state, both schemas, the stream id — is fixed for the
@@ -728,6 +737,7 @@ def _run_http_exchange_turn(
         outcome.http_status = HTTPStatus.INTERNAL_SERVER_ERROR
         raise _RpcHttpError(exc, status_code=outcome.http_status) from exc
 
+    failed_out: OutputCollector | None = None
     try:
         # Reconcile the inbound batch's schema against the declared
         # input schema (strict on field set, tolerant of order/type).
@@ -759,9 +769,11 @@ def _run_http_exchange_turn(
             kind=app._server.transport_kind,
             implementation=app._server.implementation,
         )
+        failed_out = out
         state.process(ab_in, out, process_ctx)
         if not out.finished:
             out.validate()
+        failed_out = None
 
         # Refresh the cursor token.  The call token is not re-issued: nothing
         # it carries can have changed, and the client still holds it.
@@ -816,7 +828,25 @@ def _run_http_exchange_turn(
         outcome.error_type = _log_method_error(protocol_name, method_name, server_id, exc)
         outcome.error_message = _truncate_error_message(exc)
         outcome.http_status = HTTPStatus.INTERNAL_SERVER_ERROR
-        raise _RpcHttpError(exc, status_code=outcome.http_status, schema=output_schema) from exc
+        raise _RpcHttpError(
+            exc,
+            status_code=outcome.http_status,
+            schema=output_schema,
+            log_batches=_collector_log_batches(failed_out),
+        ) from exc
+
+
+def _collector_log_batches(out: OutputCollector | None) -> list[AnnotatedBatch]:
+    """Client-log batches a collector gathered before its ``process()`` call failed."""
+    if out is None:
+        return []
+    return [
+        ab
+        for ab in out.batches
+        if ab.batch.num_rows == 0
+        and ab.custom_metadata is not None
+        and ab.custom_metadata.get(LOG_LEVEL_KEY) is not None
+    ]
 
 
 def _exchange_error_response(
@@ -1029,6 +1059,7 @@ def _run_http_producer_turn(
             if init_request_metadata is not None
             else _TICK_BATCH
         )
+        failed_out: OutputCollector | None = None
         try:
             while True:
                 # Snapshot the budgets remaining at the start of this iteration.
@@ -1048,10 +1079,12 @@ def _run_http_producer_turn(
                     externalization_enabled=externalization_enabled,
                 )
                 current_out[0] = out
+                failed_out = out
                 state.process(first_tick, out, produce_ctx)
                 first_tick = _TICK_BATCH  # only the first process() sees init metadata
                 if not out.finished:
                     out.validate()
+                failed_out = None
                 # Pre-flight the external cap BEFORE flushing — predicting the
                 # upload size from the data batch's buffer size lets us refuse
                 # a violating upload without paying the storage round-trip.
@@ -1144,6 +1177,7 @@ def _run_http_producer_turn(
             # client that only reads the first stream sees a valid header and
             # no error at all.
             _current_response_status.set(HTTPStatus.INTERNAL_SERVER_ERROR)
+            _write_collector_logs(writer, failed_out)
             _write_error_batch(writer, schema, exc, server_id=server_id)
     # Close the codec BEFORE getvalue(): the compressed frame is only complete
     # once the stream is finalised.
